@@ -18,6 +18,9 @@ class Tag(object):
         return self.kind if k == 0 else self.data[k - 1]
 
 
+POW2 = z3.Function('pow2', I, I)
+
+
 def fresh_array(prefix, ndim, elem='int', shape=None):
     term = fresh(prefix, arr_sort(ndim, elem))
     if shape is None:
@@ -655,6 +658,17 @@ class FuncVerifier(object):
             return [self.index_one(e, st) for e in sl.elts]
         return [self.index_one(sl, st)]
 
+    @staticmethod
+    def is_row_slice(sl):
+        def plain(s):
+            return isinstance(s, ast.Slice) and s.step is None
+        if plain(sl):
+            return True
+        if isinstance(sl, ast.Tuple) and len(sl.elts) == 2 and plain(sl.elts[0]) and plain(sl.elts[1]) \
+                and sl.elts[1].lower is None and sl.elts[1].upper is None:
+            return True
+        return False
+
     def index_one(self, e, st):
         if isinstance(e, ast.Slice):
             raise OutOfFragment('slice index', e)
@@ -997,6 +1011,20 @@ class FuncVerifier(object):
                 st.pc.append(qv2 == z3.If(in0, z3.IntVal(0), z3.If(in1, z3.IntVal(1), qv)))
                 rv, qv = rv2, qv2
                 return rv if isinstance(op, ast.Mod) else qv
+        if isinstance(op, ast.Div) and is_z3(to_z3(a)) and is_z3(to_z3(b)) and not isinstance(a, (Ref, View, AV)) and not isinstance(b, (Ref, View, AV)):
+            bs_ = z3.simplify(as_num(b))
+            if not (z3.is_int_value(bs_) or z3.is_rational_value(bs_)) and as_num(a).sort() != CPLX and bs_.sort() != CPLX:
+                self.oblige(st, self.site(node, 'divisor'), as_num(b) != 0, node)
+                ra = z3.ToReal(as_num(a)) if z3.is_int(as_num(a)) else as_num(a)
+                rb = z3.ToReal(as_num(b)) if z3.is_int(as_num(b)) else as_num(b)
+                return ra / rb
+        if isinstance(op, ast.Pow) and is_z3(to_z3(a)) and is_z3(to_z3(b)):
+            a_s = z3.simplify(as_num(a))
+            if z3.is_int_value(a_s) and a_s.as_long() == 2 and not z3.is_int_value(z3.simplify(as_num(b))):
+                self.oblige(st, self.site(node, 'pow2'), as_num(b) >= 0, node)
+                pw = POW2(as_num(b))
+                st.pc.append(pw >= 1)
+                return pw
         if is_z3(a) and a.sort() == CPLX or is_z3(b) and b.sort() == CPLX:
             if isinstance(op, ast.Mult) and a.sort() == CPLX and b.sort() == CPLX:
                 return cmul(a, b)
@@ -1053,6 +1081,18 @@ class FuncVerifier(object):
             if not z3.is_int_value(k):
                 raise OutOfFragment('list index must be constant', n)
             return st.heap[v.loc].items[k.as_long()]
+        if isinstance(v, (Ref, View)) and self.is_row_slice(sl):
+            # a[lo:hi] or a[lo:hi, :] read as a value (numpy would give a view; any write through it is out of fragment
+            # because the result is a fresh array here -- callers in the code base pass such slices to copies / readers only)
+            av = self.deref(v, st)
+            s0 = sl.elts[0] if isinstance(sl, ast.Tuple) else sl
+            lo = as_num(self.pev(s0.lower, st)) if s0.lower is not None else z3.IntVal(0)
+            hi = as_num(self.pev(s0.upper, st)) if s0.upper is not None else av.shape[0]
+            self.oblige(st, self.site(n, 'bounds'), z3.And(0 <= lo, lo <= hi, hi <= av.shape[0]), n)
+            res = fresh('slice', av.term.sort())
+            k_ = fresh('k', I)
+            st.pc.append(z3.ForAll([k_], z3.Select(res, k_) == z3.Select(av.term, k_ + lo), patterns=[z3.Select(res, k_)]))
+            return st.alloc(AV(res, (hi - lo,) + tuple(av.shape[1:]), av.elem))
         if isinstance(v, (Ref, View)):
             av = self.deref(v, st)
             idx = self.index_list(sl, st)
@@ -1355,6 +1395,12 @@ class FuncVerifier(object):
             eye = fresh('eye', A2)
             st.pc.append(z3.ForAll([i, j], eye[i][j] == z3.If(i == j, z3.IntVal(1), z3.IntVal(0)), patterns=[eye[i][j]]))
             return st.alloc(AV(eye, (nn, nn)))
+        if short == 'array' and not isinstance(n.args[0], ast.List):
+            v = self.pev(n.args[0], st)
+            if isinstance(v, (Ref, View, AV)) and not (isinstance(v, Ref) and not isinstance(st.heap[v.loc], AV)):
+                av = self.deref(v, st)
+                return st.alloc(AV(av.term, av.shape, av.elem))      # numpy.array(a) copies
+            raise OutOfFragment('numpy.array(...) of a non-array', n)
         if short == 'array':
             if isinstance(n.args[0], ast.List):
                 items = [self.pev(e, st) for e in n.args[0].elts]
